@@ -17,7 +17,7 @@ let dispatch kind args =
   | "calls19" | "size19" -> C19.run kind args
   | "shareok" -> C08.run kind args
   | "abort09" -> C09.run kind args
-  | "sem02" | "exprcomp" -> C02.run kind args
+  | "sem02" | "exprcomp" | "stmtcomp" -> C02.run kind args
   | _ -> failwith ("unknown kind " ^ kind)
 
 let () =
